@@ -8,7 +8,7 @@ use core::cmp::Ordering;
 macro_rules! harness {
     ($name:ident, $body:expr) => {
         #[kani::proof]
-        #[kani::unwind(48)]
+        #[kani::unwind(5)]
         #[kani::stub(crate::parser::parse_value, no_parse_value)]
         #[kani::stub(std::ptr::drop_in_place, noop_drop)]
         fn $name() {
@@ -189,7 +189,7 @@ fn image_cmp(x: f64, y: f64) -> Ordering {
 //@ bounds: scalar number documents
 //@ stubs: parse_value -> panic | drop_in_place -> no-op
 #[kani::proof]
-#[kani::unwind(48)]
+#[kani::unwind(5)]
 #[kani::stub(crate::parser::parse_value, no_parse_value)]
 #[kani::stub(std::ptr::drop_in_place, noop_drop)]
 fn c14_number_image() {
@@ -208,7 +208,7 @@ fn c14_number_image() {
 //@ desc: recorded finding F7a: string elements are neither escaped nor terminated in the key, so a string byte <= 0x07 collides with depth/level markers: ["a\u0001\u0004b"] and ["a","b"] get identical keys
 //@ fns: convert_to_comparable
 #[kani::proof]
-#[kani::unwind(48)]
+#[kani::unwind(5)]
 #[kani::stub(crate::parser::parse_value, no_parse_value)]
 #[kani::stub(std::ptr::drop_in_place, noop_drop)]
 fn c14_kf_string_markers() {
@@ -223,7 +223,7 @@ fn c14_kf_string_markers() {
 //@ desc: recorded finding F7b: integers beyond 2^53 are keyed by their nearest double, so distinct integers share a key
 //@ fns: convert_to_comparable
 #[kani::proof]
-#[kani::unwind(48)]
+#[kani::unwind(5)]
 #[kani::stub(crate::parser::parse_value, no_parse_value)]
 #[kani::stub(std::ptr::drop_in_place, noop_drop)]
 fn c14_kf_big_integers() {
@@ -239,7 +239,7 @@ fn c14_kf_big_integers() {
 //@ desc: recorded finding F7c: -0.0 and 0.0 compare Equal but have different keys
 //@ fns: convert_to_comparable
 #[kani::proof]
-#[kani::unwind(48)]
+#[kani::unwind(5)]
 #[kani::stub(crate::parser::parse_value, no_parse_value)]
 #[kani::stub(std::ptr::drop_in_place, noop_drop)]
 fn c14_kf_signed_zero() {
@@ -256,7 +256,7 @@ fn c14_kf_signed_zero() {
 //@ desc: vacuity twin: keys of two arbitrary 1-byte strings claimed never equal — must be refuted
 //@ fns: convert_to_comparable
 #[kani::proof]
-#[kani::unwind(48)]
+#[kani::unwind(5)]
 #[kani::stub(crate::parser::parse_value, no_parse_value)]
 #[kani::stub(std::ptr::drop_in_place, noop_drop)]
 fn c14_twin_must_fail() {
